@@ -397,6 +397,17 @@ def templates(tier="quick"):
         T += _mk("log_across_chunk_boundary_%d" % off, [v], tags=["buildlog"], depth=2, js=(1,), with_faults=False, edits_during=False,
                  files={".ninja_log": body})
 
+    # T41 tools that close their output when their work is done but keep running until they are waited for (`cmd >log 2>&1`,
+    # `exec >/dev/null`): to the poll loop they have finished, but they still occupy their slot
+    st = []
+    for i in range(5):
+        x = Stmt("w%d" % i, ex=["s"] if i % 2 else ["t"])
+        x.detach = True
+        st.append(x)
+    st.append(Stmt("top", ex=[x.id for x in st]))
+    T += _mk("detached_output_tools", [Variant("v0", st)], tags=["parallel", "detach"], depth=1, js=(2, 3, 4), with_faults=False, with_rm=False,
+             edits_during=False)
+
     # T32 declared sources that are missing and have no rule: as explicit, implicit, order-only input and as a validation,
     # of statements with and without work to do (C05: reported before any command runs)
     v = Variant("v0", [Stmt("a", ex=["s"]), Stmt("b", ex=["a"], im=["isrc"]), Stmt("c", ex=["t"], oo=["osrc"]),
